@@ -62,7 +62,7 @@ impl Kind {
                     if index < 0 {
                         let largest_known_index = collection.largest_known_index();
                         // The minimum size of the resulting array.
-                        let len_required = -index as usize;
+                        let len_required = index.unsigned_abs();
 
                         let unknown_kind = collection.unknown_kind();
                         if unknown_kind.contains_any_defined() {
